@@ -6,7 +6,7 @@ THEOREMS = ["Goag.Serve.serve_exactly_one_response", "Goag.Serve.secured_one_fin
 FACETS = [("route", [], "route")]
 RULE = "same corpus as C03 (random well-formed template sets x methods x base forms x typed path parameters x cors x single-scheme security; enumerated + template-directed + near-miss request paths, random handler/middleware/authenticator configuration); non-trivial = not answered by the plain not-found path; distinct by (package, method, path, projected observation)"
 
-EXPLANATION = "every ServeHTTP and every Parse() runs under recover; a counting ResponseWriter records WriteHeader calls; the run requires no panic and exactly one response for every request of the corpus, including base-path near-misses, request-body documents of the JSON corpus (valid and single-fault) decoded by the generated UnmarshalJSON, truncated / doubled-slash paths, paths not starting with '/', nil and unaccepting authenticators"
+EXPLANATION = "every ServeHTTP and every Parse() runs under recover; a counting ResponseWriter records WriteHeader calls; the run requires no panic and exactly one response for every request of the corpus, including base-path near-misses, request-body documents of the JSON corpus (valid and single-fault) decoded by the generated UnmarshalJSON, raw requests with valid / truncated / empty / deeply nested bodies and declared or unknown Content-Length into operations with request bodies, truncated / doubled-slash paths, paths not starting with '/', nil and unaccepting authenticators"
 ASSUMPTIONS = ['handlers installed for every operation; user handlers return well-formed response values', 'panics inside net/http or encoding/json internals are outside the model']
 
 
@@ -39,7 +39,36 @@ def scan_body_decoding(ctx):
     ctx.extra_cov = {"body_decoding": {"documents_decoded_under_recover": n, "panics": p}}
 
 
+def scan_request_bodies(ctx):
+    """raw requests with bodies into ServeHTTP of the response/client corpus: valid, truncated, empty, deeply nested documents, each with a declared and with an unknown (-1) Content-Length"""
+    from . import respfam
+    res = respfam.run(ctx)
+    n = bad = 0
+    if res:
+        impl, _, _, gens, _ = res
+        specs = {g[0]: g[4] for g in gens if len(g) > 4}
+        seen = set()
+        for cid, o in impl.items():
+            if "#b" not in cid:
+                continue
+            n += 1
+            panic = "PANIC" in o
+            once = " W:1 " in o + " "
+            if panic or not once:
+                bad += 1
+                pkg = cid.split("#")[0]
+                if pkg in seen or len(seen) >= 3:
+                    continue
+                seen.add(pkg)
+                ctx.violations.append({"kind": "serving a request with a body " + ("panicked" if panic else "did not write exactly one response"),
+                                       "case": cid, "observation": o[:1500],
+                                       "how": "case id b<op>.<body>.<cl>: body index into [valid pet, valid error, valid list, truncated, empty, null, [], string, wrong kinds, 2000 x '['], cl 0 = declared length, 1 = Content-Length -1",
+                                       "spec": bytes.fromhex(specs.get(pkg, "")).decode("utf-8", "replace")})
+    ctx.extra_cov["request_bodies"] = {"requests_with_body_served_under_recover": n, "panics_or_multiple_responses": bad}
+
+
 def check(ctx):
     scan_body_decoding(ctx)
+    scan_request_bodies(ctx)
     return servefam.check_prop(ctx, "C14", ["GoagModel.Props.C14"], THEOREMS, FACETS, TRUSTED, rule=RULE,
                                explanation=EXPLANATION, assumptions=ASSUMPTIONS, level="other")
